@@ -144,14 +144,40 @@ type verdict struct {
 }
 
 // run executes one history against the real detector under the oracle of prop.
-func run(prop string, h *history, r *res.Result) (v *verdict) {
-	var d replaydetector.ReplayDetector
-	at := -1
-	defer func() {
-		if p := recover(); p != nil {
-			v = &verdict{kind(h) + ":panic", fmt.Sprintf("panic at step %d: %v", at, p), at}
+func run(prop string, h *history, r *res.Result) *verdict {
+	step := newStepper(prop, h, r)
+	for i := range h.Steps {
+		if v := step(i); v != nil {
+			return v
 		}
-	}()
+	}
+	return nil
+}
+
+// runTwin drives two detectors, each with its own history and model, turn by turn: detectors are independent objects,
+// what one of them is asked must not show in the answers of the other.
+func runTwin(prop string, h1, h2 *history, r *res.Result) (*verdict, *history) {
+	s1, s2 := newStepper(prop, h1, r), newStepper(prop, h2, r)
+	for i := 0; i < len(h1.Steps) || i < len(h2.Steps); i++ {
+		if i < len(h1.Steps) {
+			if v := s1(i); v != nil {
+				v.key = "twin:" + v.key
+				return v, h1
+			}
+		}
+		if i < len(h2.Steps) {
+			if v := s2(i); v != nil {
+				v.key = "twin:" + v.key
+				return v, h2
+			}
+		}
+	}
+	return nil, nil
+}
+
+// newStepper returns the function that executes step i of the history against a fresh detector under the oracle of prop.
+func newStepper(prop string, h *history, r *res.Result) func(i int) *verdict {
+	var d replaydetector.ReplayDetector
 	if h.Wrap {
 		d = replaydetector.WithWrap(h.Window, h.Max)
 	} else {
@@ -164,8 +190,8 @@ func run(prop string, h *history, r *res.Result) (v *verdict) {
 		due int
 	}
 	var pending []deferred
-	for i, st := range h.Steps {
-		at = i
+	stepBody := func(i int) *verdict {
+		st := h.Steps[i]
 		// callbacks whose invocation was put off until now (C04 only): other numbers may have been accepted in between
 		for len(pending) > 0 && pending[0].due <= i {
 			p := pending[0]
@@ -214,7 +240,7 @@ func run(prop string, h *history, r *res.Result) (v *verdict) {
 		} else {
 			if m.boundary(st.Seq) {
 				r.Count("boundary_unconstrained", 1)
-				continue // result ignored, callback never invoked
+				return nil // result ignored, callback never invoked
 			}
 			exp := m.expectOK(st.Seq)
 			r.DistinctKey(fmt.Sprintf("%s w%%64=%d exp=%v newer=%v behind=%s any=%v", kind(h), h.Window%64, exp, m.newer(st.Seq), bucket(behindOr0(m, st.Seq), m.window), m.any))
@@ -231,17 +257,17 @@ func run(prop string, h *history, r *res.Result) (v *verdict) {
 		}
 		if !ok {
 			r.Count("refused", 1)
-			continue
+			return nil
 		}
 		if m.boundary(st.Seq) { // C04: keep the model's newest unambiguous
-			continue
+			return nil
 		}
 		if !st.Accept {
 			r.Count("ok_not_accepted", 1)
-			continue
+			return nil
 		}
 		if prop == "C04" && st.Seq > h.Max {
-			continue
+			return nil
 		}
 		if st.Defer > 0 {
 			k := len(pending)
@@ -249,7 +275,7 @@ func run(prop string, h *history, r *res.Result) (v *verdict) {
 				k--
 			}
 			pending = append(pending[:k], append([]deferred{{acc, st.Seq, i + st.Defer}}, pending[k:]...)...)
-			continue
+			return nil
 		}
 		latest := acc()
 		r.Count("accepts", 1)
@@ -257,8 +283,16 @@ func run(prop string, h *history, r *res.Result) (v *verdict) {
 		if prop == "C05" && latest != exp {
 			return &verdict{kind(h) + ":latest-flag", fmt.Sprintf("step %d: accept(%d) returned %v expected %v (newest now %d)", i, st.Seq, latest, exp, m.newest), i}
 		}
+		return nil
 	}
-	return nil
+	return func(i int) (v *verdict) {
+		defer func() {
+			if p := recover(); p != nil {
+				v = &verdict{kind(h) + ":panic", fmt.Sprintf("panic at step %d: %v", i, p), i}
+			}
+		}()
+		return stepBody(i)
+	}
 }
 
 func behindOr0(m *model, seq uint64) uint64 {
@@ -511,6 +545,19 @@ func main() {
 			os.Exit(2)
 		}
 		r.Eval(1)
+		var tw struct {
+			Witness struct {
+				First  *history `json:"first"`
+				Second *history `json:"second"`
+			} `json:"witness"`
+		}
+		if json.Unmarshal(b, &tw) == nil && tw.Witness.First != nil && tw.Witness.Second != nil {
+			if v, hv := runTwin(*prop, tw.Witness.First, tw.Witness.Second, r); v != nil {
+				r.Violate(v.key, v.desc, map[string]interface{}{"deviating": hv, "first": tw.Witness.First, "second": tw.Witness.Second})
+			}
+			r.Write(*out)
+			return
+		}
 		if v := run(*prop, &w.Witness, r); v != nil {
 			r.Violate(v.key, v.desc, &w.Witness)
 		}
@@ -533,6 +580,18 @@ func main() {
 				hs.Steps = hs.Steps[:12]
 			}
 			r.Sample(hs)
+		}
+		if i%8 == 7 {
+			// two detectors side by side, each with its own configuration, history and model
+			h2 := genHistory(rng, *prop == "C05")
+			r.Count("twin_histories", 1)
+			if v, hv := runTwin(*prop, h, h2, r); v != nil {
+				seenKeys[v.key]++
+				if seenKeys[v.key] <= 3 {
+					r.Violate(v.key, v.desc+" (two detectors were used turn by turn; the witness is the history of the one that deviated and replays alone only if the fault is not in shared state)", map[string]interface{}{"deviating": hv, "first": h, "second": h2})
+				}
+			}
+			continue
 		}
 		if v := run(*prop, h, r); v != nil {
 			seenKeys[v.key]++
